@@ -33,7 +33,7 @@ fn spec(tier: Tier) -> CheckSpec {
 	let n = crate::common::ncpu();
 	CheckSpec {
 		property: "C16",
-		level: "exploration",
+		level: "model_checking",
 		rule: format!(
 			"exhaustive: every program of a corpus built to contain an enumeration or a choice (field listings/manifestation/toString of objects with 3-8 similarly named fields in every declaration order of three names, object comprehensions, merges, removeKey; unknown local / parameter / field / std member / named argument with 3-5 equally similar candidates; objects, arrays and assert lists failing in several places; comprehensions with several duplicate keys; top-level functions called with several missing or unknown arguments; a recursion as deep as the frame limit allows; every 2-layer inheritance chain over 5 member kinds listed and manifested) is evaluated, in a fresh thread per hash salt, under every salt in 0..{} x pre-interned pool in {{0, 1, 100, 10000 strings}}, and under salts {{0, 7}} after every history of length <= {} over {{success, runtime error, frame-limit error, failing assert, object assert failure, large allocation}} run before it on the same thread, once on the same State and once on a fresh State: result or CompactFormat error text byte-identical to the first observation (salt 0, empty pool, no history). (cli) the real executable is run 3 times per corpus program: identical stdout, stderr and exit code. The evidence counts the distinct iteration orders the salts produce on a probe map (>1 required). non-trivial = distinct (program, salt, pool, history) evaluated",
 			tier.q(32, 256),
